@@ -121,10 +121,18 @@ def cases(tier, seed):
                 yield {"kind": "cp", "shape": shape, "rank": rank, "inp": inp}
                 if len(shape) >= 2:
                     yield {"kind": "tucker", "shape": shape, "rank": rank, "inp": inp}
-    # histories (E2) on a few representatives
-    for rg in [{"alg": "quadgraph", "shape": [1, 2, 2]}, {"alg": "rbt", "n": 3, "depth": None, "reps": 2, "seed": 0}]:
-        for sp in ("cp", "tucker"):
-            yield {"kind": "rg", "rg": rg, "sp": sp, "inp": "categorical", "ki": 2, "ks": 2, "nc": 1, "mixing": True, "history": True}
+    # histories (E2) on representatives of every template family
+    for rg in [{"alg": "quadgraph", "shape": [1, 2, 2]}, {"alg": "rbt", "n": 3, "depth": None, "reps": 2, "seed": 0}, {"alg": "linear", "n": 3, "reps": 2, "ordering": None, "randomize": True, "seed": 1}]:
+        for sp in ("cp", "cp-t", "tucker"):
+            for mixing in (True, False):
+                yield {"kind": "rg", "rg": rg, "sp": sp, "inp": "categorical", "ki": 2, "ks": 2, "nc": 2 if mixing else 1, "mixing": mixing, "history": True}
+        yield {"kind": "rg", "rg": rg, "sp": "cp", "inp": "binomial", "ki": 2, "ks": 2, "nc": 1, "mixing": True, "history": True}
+    yield {"kind": "hmm", "ordering": [2, 0, 1], "ks": 2, "inp": "categorical", "history": True}
+    yield {"kind": "hmm", "ordering": [1, 0], "ks": 3, "inp": "binomial", "history": True}
+    yield {"kind": "ff", "n": 3, "inp": "categorical", "history": True}
+    yield {"kind": "cp", "shape": [2, 3], "rank": 2, "inp": "categorical", "history": True}
+    yield {"kind": "tucker", "shape": [2, 2, 2], "rank": 2, "inp": "categorical", "history": True}
+    yield {"kind": "tabular", "rgname": "random-binary-tree", "nf": 3, "sp": "cp", "lay": "mixed", "k": 2, "nc": 2, "mixing": True, "history": True}
 
 
 SOFTMAX = Parameterization(activation="softmax", initialization="normal")
